@@ -85,7 +85,8 @@ def _hostile_name(rng, sbx_root_placeholder="@SBX@") -> tuple[str, list[str]]:
         return rng.choice([".hidden" + ext, "d/.hidden" + ext, "__MACOSX/res" + ext, "__MACOSX/._res" + ext, ".DS_Store", "./.hidden" + ext, "./._res" + ext,
                            "./d/.env" + ext, "././.x" + ext]), ["hidden"]
     if r < 0.61:
-        return rng.choice(["inner.zip", "d/inner.tar.gz", "x.7z", "y.tgz", "z.TAR", "n.gz", "d/n.bz2", "n.xz", "n.tar.xz", "N.TBZ2", "inner.zip ", "docs/inner.zip\t", "inner.tgz  ", " lead.7z"]), ["nested"]
+        return rng.choice(["inner.zip", "d/inner.tar.gz", "x.7z", "y.tgz", "z.TAR", "n.gz", "d/n.bz2", "n.xz", "n.tar.xz", "N.TBZ2", "inner.zip ", "docs/inner.zip\t", "inner.tgz  ", " lead.7z",
+                           "n.taz", "d/n.tz", "N.TAZ", "n.tbz", "n.tb2"]), ["nested"]
     if r < 0.66:
         return rng.choice(["prog.exe", "pic.png", "noext", "blob.bin", "x.unknownext"]), ["unsupported"]
     if r < 0.72:
@@ -360,7 +361,9 @@ def _check_history(run, sbx, fmt, classes, mode, k, results, exc, events, fds0, 
                 reason = "hidden"
             elif nm.startswith("__MACOSX/"):
                 reason = "macos_resource_fork"
-            elif base.strip().lower().endswith((".zip", ".tar", ".tar.gz", ".tgz", ".tar.bz2", ".tbz2", ".tar.xz", ".txz", ".7z", ".gz", ".bz2", ".xz")):
+            elif "nested" in m.get("classes", []) or base.strip().lower().endswith((".zip", ".tar", ".tar.gz", ".tgz", ".tar.bz2", ".tbz2", ".tar.xz", ".txz", ".7z", ".gz", ".bz2", ".xz")):
+                # the member IS an archive (the generator packed one under an archive name, whatever spelling of the suffix):
+                # its token can only reach a result by unpacking it
                 reason = "nested_archive"  # (a padded name such as 'inner.zip ' is either an unsupported type or a nested archive: no result either way)
             elif m["kind"] not in ("file",):
                 reason = "non_regular_or_ghost_member:" + m["kind"]
